@@ -1157,7 +1157,9 @@ impl<'p> Emitter<'p> {
                 if let Some(e) = els {
                     self.w(" else ");
                     self.scopes.push(Scope::Block { vars: vec![] });
-                    self.block(e, true);
+                    // in the alternative layout an else branch that is a single `if` is written as an `else if` chain
+                    let chain = self.trivia && e.len() == 1 && matches!(e[0], Item::If { .. });
+                    self.block(e, !chain);
                     self.scopes.pop();
                 }
                 self.fold(start);
